@@ -91,4 +91,16 @@ Soundness == (~flagged /\ declEq) => obsEq
 NeverFlagged == ~flagged
 NeverDiffer == obsEq
 
+
+-----------------------------------------------------------------------------
+(* Unbounded version: IndInv is an inductive invariant (MCConstTimeInd.cfg: TLC starts from EVERY state that satisfies
+   it - 16 384 type-correct states filtered by IndInv - and checks that one step of Next preserves it), so Soundness
+   holds for programs of any length, not only up to MaxSteps. *)
+TypeOK == /\ ra \in [Regs -> Bit] /\ rb \in [Regs -> Bit]
+          /\ ma \in [Cells -> Bit] /\ mb \in [Cells -> Bit]
+          /\ taint \in SUBSET Regs
+          /\ obsEq \in BOOLEAN /\ declEq \in BOOLEAN /\ flagged \in BOOLEAN
+IndInv == /\ ma = mb /\ UntaintedEqual /\ Soundness
+IndInit == TypeOK /\ steps = 0 /\ IndInv
+IndSpec == IndInit /\ [][Next]_vars
 =============================================================================
